@@ -495,6 +495,26 @@ where
             fams.push((format!("{}:{}", h.suite, nm), enc));
         }
     }
+    // application-chosen / absent api ids, which do not embed the suite: the two suites must still
+    // give unrelated sets, and the prefix law must hold in any call order
+    for (nm, api) in [("none", None), ("empty", Some(vec![])), ("custom", Some(b"MY_APP_".to_vec()))] {
+        let first = gens::<CS>(h, api.as_deref(), 7).ok().map(|g| g.values.iter().map(g1hex).collect::<Vec<_>>());
+        let keep = other_suite(h);
+        let second = gens::<CS::Other>(h, api.as_deref(), 5).ok().map(|g| g.values.iter().map(g1hex).collect::<Vec<_>>());
+        let sid = h.last();
+        h.suite = keep;
+        let third = gens::<CS>(h, api.as_deref(), 3).ok().map(|g| g.values.iter().map(g1hex).collect::<Vec<_>>());
+        let tid = h.last();
+        if let (Some(a), Some(b), Some(c)) = (first, second, third) {
+            let sa: HashSet<&Vec<u8>> = a.iter().collect();
+            h.expect(!b.iter().any(|x| sa.contains(x)), "C11.gen_disjoint_generic_api", &format!("generator sets of the two ciphersuites share an element for api id {}", nm), &[sid]);
+            h.expect(c[..] == a[..3], "C11.gen_prefix_generic_api", &format!("create(3) != create(7)[..3] for api id {} after the other suite was used", nm), &[tid]);
+            // (absent and empty api ids are the same id: only one of them joins the disjointness matrix)
+            if nm != "empty" {
+                fams.push((format!("{}:{}", h.suite, nm), a));
+            }
+        }
+    }
     let keep = other_suite(h);
     for (nm, api) in [("plain", <CS::Other as BbsCiphersuite>::API_ID.to_vec()), ("blind", <CS::Other as BbsCiphersuite>::API_ID_BLIND.to_vec()), ("BLIND_", oblind_api)] {
         if let Some(g) = gens::<CS::Other>(h, Some(&api), n.min(64)).ok() {
